@@ -93,6 +93,9 @@ func putCRSTree(w *World, root string, t *rapid.T, label string) {
 	w.Put(root+"/tests/regression/tests/REQUEST-942-APPLICATION-ATTACK-SQLI/9421400.yaml", dirtyYaml)
 	w.Put(root+"/tests/regression/tests/REQUEST-942-APPLICATION-ATTACK-SQLI/notes.yaml", dirtyYaml)
 	w.Put(root+"/tests/regression/README.yaml", dirtyYaml)
+	// correctly numbered, only the end of the file is not normalised: --check must report it and still not write
+	w.Put(root+"/tests/regression/tests/REQUEST-942-APPLICATION-ATTACK-SQLI/942160.yaml", "---\ntests:\n  - test_id: 1\n    desc: a\n  - test_id: 2\n    desc: b\n\n   \n")
+	w.Put(root+"/tests/regression/tests/REQUEST-942-APPLICATION-ATTACK-SQLI/942170.yml", "---\ntests:\n  - test_id: 1\n    desc: no final newline")
 	w.Put(root+"/tests/942150.yaml", dirtyYaml)
 	if t != nil && chance(t, 50, label+"-extra") {
 		w.Put(root+"/regex-assembly/sub/deeper/x.ra", dirtyRa)
@@ -128,6 +131,7 @@ func genC15(t *rapid.T, tier string) (*World, any) {
 		{"update", []string{"regex", "update", "942100"}, ""},
 		{"update-all", []string{"regex", "update", "--all"}, ""},
 		{"renumber-check", []string{"util", "renumber-tests", "--check", "942100"}, ""},
+		{"renumber-check-eof", []string{"util", "renumber-tests", "--check", pick(t, []string{"942160", "942170"}, "eofarg")}, ""},
 		{"renumber-check-all", []string{"util", "renumber-tests", "--check", "--all"}, ""},
 		{"renumber-check-all-gh", []string{"-o", "github", "util", "renumber-tests", "-c", "-a"}, ""},
 		{"renumber", []string{"util", "renumber-tests", "942110"}, ""},
